@@ -156,6 +156,9 @@ def parse_module(text):
                     cur = '%' + lm.group(1); blocks[cur] = []; order.append(cur)
                 else:
                     l = raw.strip()
+                    if l.startswith('switch ') and ']' not in l:
+                        while ']' not in lines[i]:
+                            i += 1; l += ' ' + lines[i].strip()
                     if l and not l.startswith(';'):
                         l = re.sub(r',? ![\w.]+ !\d+', '', l)
                         l = re.sub(r'\s+;.*$', '', l) if '"' not in l else l
@@ -244,9 +247,14 @@ class PSel:
 
 
 class PtrInt:
-    """ptrtoint of a pointer: only differences within one object and comparisons are supported"""
-    __slots__ = ('obj', 'off')
-    def __init__(s, obj, off): s.obj = obj; s.off = off
+    """ptrtoint of a pointer (or of a guarded choice of pointers): only differences within one object and
+    comparisons are supported. alts = [(guard, obj, off)]"""
+    __slots__ = ('alts',)
+    def __init__(s, obj=None, off=None, alts=None): s.alts = alts if alts is not None else [(True, obj, off)]
+    @property
+    def obj(s): return s.alts[0][1] if len(s.alts) == 1 else ('?',)
+    @property
+    def off(s): return s.alts[0][2]
 
 
 NULL = Ptr(None, C(0))
@@ -326,7 +334,8 @@ def vite(c, a, b):
     # int vs null pointer (e.g. zero-initialised memory read as pointer)
     if isinstance(a, V) and pb and a.conc() == 0: return vite(c, NULL, b)
     if isinstance(b, V) and pa and b.conc() == 0: return vite(c, a, NULL)
-    if isinstance(a, PtrInt) and isinstance(b, PtrInt) and a.obj == b.obj: return PtrInt(a.obj, vite(c, a.off, b.off))
+    if isinstance(a, PtrInt) and isinstance(b, PtrInt):
+        return PtrInt(alts=[(gand(c, g), o, f) for g, o, f in a.alts] + [(gand(z3.Not(c), g), o, f) for g, o, f in b.alts])
     raise Unsupported('merge of %r / %r' % (a, b))
 
 
@@ -380,8 +389,15 @@ def binop(op, a, b, w):
 
 def _binop(op, a, b, w):
     if isinstance(a, PtrInt) or isinstance(b, PtrInt):
-        if op == 'sub' and isinstance(a, PtrInt) and isinstance(b, PtrInt) and a.obj == b.obj:
-            return norm(a.off.e - b.off.e, a.off.lo - b.off.hi, a.off.hi - b.off.lo, w)
+        if op == 'sub' and isinstance(a, PtrInt) and isinstance(b, PtrInt):
+            res = None
+            for ga, oa, fa in a.alts:
+                for gb, ob, fb in b.alts:
+                    if oa != ob: continue          # difference of unrelated pointers: undefined, contributes nothing (callers guard it)
+                    d = norm(fa.e - fb.e, fa.lo - fb.hi, fa.hi - fb.lo, w)
+                    g = gand(ga, gb)
+                    res = d if res is None else (vite(g, d, res) if not isinstance(g, bool) else (d if g else res))
+            if res is not None: return res
         raise Unsupported('arithmetic %s on pointer-derived integers' % op)
     ca, cb = a.conc(), b.conc()
     M = 1 << w
@@ -496,6 +512,7 @@ class Exec:
         s.ginit = {}; s._parsed = {}; s.fresh = itertools.count()
         s.assumes = []                             # global assumptions (ranges of fresh variables)
         s.uninit = {}; s.readonly = set(); s._tabs = set()
+        s.prune_branches = False
         s.prune = 0          # >0: candidate offsets of symbolic accesses (up to this many) are filtered by a solver feasibility query
 
     # ---- objects
@@ -581,7 +598,13 @@ class Exec:
         if tok.startswith('bitcast'):
             m = re.match(r'bitcast \((.*) to (.*)\)$', tok); t, v = s.tv(m.group(1)); return s.constexpr(t, v)
         if tok.startswith('inttoptr'):
-            raise Unsupported('inttoptr constant %r' % tok[:60])
+            m = re.match(r'inttoptr \(i64 (-?\d+) to', tok)
+            if not m: raise Unsupported('inttoptr constant %r' % tok[:60])
+            k = int(m.group(1))
+            if k == 0: return NULL
+            oid = 'abs:%d' % k          # absolute address (e.g. list poison): a zero-sized object, any access is out of bounds
+            s.objs.setdefault(oid, 0)
+            return Ptr(oid, C(0))
         raise Unsupported('constant expression %r' % tok[:60])
 
     # ---- operands
@@ -1011,6 +1034,12 @@ class Exec:
         if op == 'select':
             parts = split_top(body[7:]); c = s.tv(parts[0]); a = s.tv(parts[1]); b = s.tv(parts[2])
             return ('select', dst, c, a, b)
+        if op == 'call' and ' asm ' in body:
+            nret = body.count('i64', 0, body.index(' asm ')) + body.count('i32', 0, body.index(' asm '))
+            return ('asm', dst, max(nret, 1))
+        if op == 'extractvalue':
+            m2 = re.match(r'extractvalue (.*) (%[\w.]+), (\d+)$', body)
+            return ('extractvalue', dst, m2.group(2), int(m2.group(3)))
         if op == 'call':
             m2 = re.match(r'call\s+(.*?)\s*(@[\w.$-]+|%[\w.]+)\((.*)\)\s*(#\d+)?$', body)
             if not m2: raise Unsupported('call syntax %r' % body[:80])
@@ -1066,6 +1095,8 @@ class Exec:
                     regs[dst] = r_
                 elif op == 'ptrtoint':
                     if isinstance(v, Ptr): regs[dst] = PtrInt(v.obj, v.off) if v.obj is not None else C(0)
+                    elif isinstance(v, PSel) and all(isinstance(x, Ptr) for g, x in v.alts):
+                        regs[dst] = PtrInt(alts=[(g, x.obj, x.off) for g, x in v.alts])
                     else: raise Unsupported('ptrtoint of %r' % (v,))
                 else: raise Unsupported(op)
             elif k == 'gep':
@@ -1089,12 +1120,22 @@ class Exec:
             elif k == 'call':
                 s.do_call(f, st, p, depth)
                 regs = st.regs
+            elif k == 'asm':
+                # inline assembly (interrupt mask save/restore in the firmware build): stubbed as a no-op returning zeros
+                if p[1]: regs[p[1]] = tuple(C(0) for _ in range(p[2])) if p[2] > 1 else C(0)
+            elif k == 'extractvalue':
+                agg = regs[p[2]]
+                regs[p[1]] = agg[p[3]] if isinstance(agg, tuple) else agg
             elif k == 'br': return [(p[1], True)]
             elif k == 'condbr':
                 cv = s.val(st, Ty('int', bits=1), p[1])
                 if cv.conc() is not None: return [(p[2] if cv.conc() else p[3], True)]
                 cb = regs.get(p[1] + '#b')
                 g = cb if cb is not None and not isinstance(cb, bool) else (cv.e == 1)
+                if s.prune_branches:
+                    # path-precise mode: drop a branch side that the assumptions and the path guard exclude
+                    if s._infeasible(st, g): return [(p[3], True)]
+                    if s._infeasible(st, z3.Not(g)): return [(p[2], True)]
                 return [(p[2], g), (p[3], z3.Not(g))]
             elif k == 'switch':
                 v = s.val(st, p[1], p[2]); w = M.res(p[1]).bits
@@ -1135,10 +1176,23 @@ class Exec:
                         e = _ptr_eq(x, y)
                         r = gor(r, gand(gand(ga, gb), e))
                 return gnot(r) if pred == 'ne' else r
-            if isinstance(a, Ptr) and isinstance(b, Ptr) and a.obj == b.obj: return icmp_v(pred, a.off, b.off, 64)
-            raise Unsupported('ordering comparison of unrelated pointers')
+            r = False; any_rel = False
+            for ga, x in s.targets(a):
+                for gb, y in s.targets(b):
+                    if isinstance(x, Ptr) and isinstance(y, Ptr) and x.obj == y.obj:
+                        any_rel = True
+                        r = gor(r, gand(gand(ga, gb), icmp_v(pred, x.off, y.off, 64)))
+                    # relational comparison of pointers into different objects is undefined: contributes False
+            if not any_rel: raise Unsupported('ordering comparison of unrelated pointers')
+            return r
         if isinstance(a, PtrInt) or isinstance(b, PtrInt):
-            if isinstance(a, PtrInt) and isinstance(b, PtrInt) and a.obj == b.obj: return icmp_v(pred, a.off, b.off, 64)
+            if isinstance(a, PtrInt) and isinstance(b, PtrInt):
+                r = False; any_rel = False
+                for ga, oa, fa in a.alts:
+                    for gb, ob, fb in b.alts:
+                        if oa == ob:
+                            any_rel = True; r = gor(r, gand(gand(ga, gb), icmp_v(pred, fa, fb, 64)))
+                if any_rel: return r
             raise Unsupported('comparison of pointer-derived integers')
         return icmp_v(pred, a, b, w)
 
